@@ -13,11 +13,13 @@
 package mux
 
 import (
+	"context"
 	"crypto/sha1"
 	"encoding/hex"
 	"encoding/json"
 	"fmt"
 	"os"
+	"os/exec"
 	"runtime"
 	"sort"
 	"strings"
@@ -114,7 +116,7 @@ var executions atomic.Int64
 
 // execute runs one path in a fresh bubble.
 func execute(t *testing.T, cfg *Config, events []Event, keepKey bool, logf func(string, ...interface{})) (res execResult) {
-	return executeDriven(t, cfg, func(w *world, step func(Event) bool) {
+	return executeDriven(t, cfg, "", events, func(w *world, step func(Event) bool) {
 		for _, ev := range events {
 			if !step(ev) {
 				return
@@ -127,8 +129,16 @@ func execute(t *testing.T, cfg *Config, events []Event, keepKey bool, logf func(
 // drive, which calls step(event) for each event (and may look at harness-
 // visible state of the world in between); step reports false when the history
 // must end (event not applicable, violation seen, multiplexer down).
-func executeDriven(t *testing.T, cfg *Config, drive func(w *world, step func(Event) bool), keepKey bool, logf func(string, ...interface{})) (res execResult) {
+func executeDriven(t *testing.T, cfg *Config, scenarioName string, planned []Event, drive func(w *world, step func(Event) bool), keepKey bool, logf func(string, ...interface{})) (res execResult) {
 	executions.Add(1)
+	// Registered while running so that the watchdog can name the history of an
+	// execution that never comes back.
+	id := inflightSeq.Add(1)
+	inflightMap.Store(id, &inflight{id: id, cfg: cfg, events: planned, scenario: scenarioName})
+	defer func() {
+		inflightMap.Delete(id)
+		progress.Add(1)
+	}()
 	defer func() {
 		if p := recover(); p != nil {
 			res.Panic = fmt.Sprint(p)
@@ -343,7 +353,6 @@ func explore(t *testing.T, r *vr.Report, cfg *Config, prop string, deadline time
 				events = append(events, frontier[tk.n].path...)
 				events = append(events, tk.ev)
 				results[i] = execute(t, cfg, events, false, nil)
-				progress.Add(1)
 			})
 			l := r.Local()
 			for i := range results {
@@ -485,28 +494,178 @@ func minimise(t *testing.T, f found) found {
 	return f
 }
 
-// progress is bumped after every execution; the watchdog turns a hung
-// execution (possible only with a broken multiplexer, e.g. a mutant that spins)
-// into an infrastructure error instead of a silent hang.
+// progress is bumped after every execution. A multiplexer that wedges in a way
+// the virtual clock cannot see (a goroutine parked on a sync.Mutex whose owner
+// waits forever) makes synctest.Wait, or a harness call that needs the same
+// mutex, block for good: the execution never finishes. The watchdog turns that
+// into a verdict instead of a silent hang: when no execution has finished for
+// hangAfter, it takes the history of an execution that is still in flight and
+// re-executes exactly that history in fresh child processes (this test binary
+// in replay mode, hangLimit each). If the child does not come back (or the
+// bubble dead-locks) in all 5 runs, the history is reported as a violation of
+// the running property ("does not reach quiescence"); otherwise the run ends as
+// an infrastructure error. The unchanged tree never gets here.
 var progress atomic.Int64
 
-func startWatchdog() func() {
+const (
+	hangAfter = 60 * time.Second
+	hangLimit = 60 * time.Second
+)
+
+type inflight struct {
+	id       int64
+	cfg      *Config
+	events   []Event
+	scenario string
+}
+
+var (
+	inflightMap sync.Map
+	inflightSeq atomic.Int64
+)
+
+// runHangChild re-executes one replay file in a child process and reports
+// whether it hung (or dead-locked) and a summary of the parked goroutines.
+func runHangChild(testName, file string) (hung bool, summary string) {
+	ctx, cancel := context.WithTimeout(context.Background(), hangLimit+30*time.Second)
+	defer cancel()
+	dir, _ := os.MkdirTemp("", "mux-hang-child")
+	defer os.RemoveAll(dir)
+	cmd := exec.CommandContext(ctx, os.Args[0], "-test.run=^"+testName+"$", fmt.Sprintf("-test.timeout=%s", hangLimit), "-test.v")
+	cmd.Env = append(os.Environ(), "VERIF_REPLAY="+file, "VERIF_EVIDENCE_DIR="+dir)
+	out, _ := cmd.CombinedOutput()
+	text := string(out)
+	switch {
+	case ctx.Err() != nil:
+		return true, "child process did not finish and was killed"
+	case strings.Contains(text, "panic: test timed out"), strings.Contains(text, "deadlock: "):
+		return true, summariseGoroutines(text)
+	}
+	return false, ""
+}
+
+// summariseGoroutines extracts "state @ function" for the goroutines of a
+// bubble that are parked inside the multiplexer or the harness.
+func summariseGoroutines(dump string) string {
+	seen := map[string]bool{}
+	var out []string
+	for _, block := range strings.Split(dump, "\n\n") {
+		lines := strings.Split(strings.TrimSpace(block), "\n")
+		if len(lines) < 2 || !strings.HasPrefix(lines[0], "goroutine ") || !strings.Contains(lines[0], "synctest bubble") {
+			continue
+		}
+		state := lines[0]
+		if i := strings.Index(state, "["); i >= 0 {
+			state = strings.TrimSuffix(state[i+1:], "]:")
+		}
+		if i := strings.Index(state, ","); i >= 0 {
+			state = state[:i]
+		}
+		fn := ""
+		for _, l := range lines[1:] {
+			if strings.HasPrefix(l, "\t") {
+				continue
+			}
+			if strings.Contains(l, "pkg/multiplexing.") || strings.Contains(l, "checks/mux.") {
+				fn = l
+				if i := strings.LastIndex(fn, "("); i > 0 {
+					fn = fn[:i]
+				}
+				fn = fn[strings.LastIndex(fn, "/")+1:]
+				break
+			}
+		}
+		if fn == "" {
+			continue
+		}
+		item := state + " @ " + fn
+		if !seen[item] {
+			seen[item] = true
+			out = append(out, item)
+		}
+	}
+	sort.Strings(out)
+	if len(out) > 8 {
+		out = out[:8]
+	}
+	return strings.Join(out, "; ")
+}
+
+// reportHang is called by the watchdog goroutine; it never returns.
+func reportHang(t *testing.T, r *vr.Report, prop string) {
+	var flights []*inflight
+	inflightMap.Range(func(_, v interface{}) bool { flights = append(flights, v.(*inflight)); return true })
+	sort.Slice(flights, func(i, j int) bool { return flights[i].id < flights[j].id })
+	fmt.Printf("WATCHDOG: no execution finished for %s; %d execution(s) in flight; re-executing in child processes\n", hangAfter, len(flights))
+	dir, _ := os.MkdirTemp("", "mux-hang")
+	defer os.RemoveAll(dir)
+	for i, f := range flights {
+		if i >= 3 {
+			break
+		}
+		cfg := *f.cfg
+		cfg.Preamble = nil
+		c := replayCase{Config: cfg, Events: f.events, Path: pathString(f.events), Scenario: f.scenario}
+		file := fmt.Sprintf("%s/hang-%d.json", dir, i)
+		data, _ := json.Marshal(map[string]interface{}{"property": prop, "case": c, "test": t.Name()})
+		os.WriteFile(file, data, 0o644)
+		// Five child runs at once (each has its own time limit).
+		hung := make([]bool, 5)
+		sums := make([]string, 5)
+		var wg sync.WaitGroup
+		for k := range hung {
+			wg.Add(1)
+			go func(k int) {
+				defer wg.Done()
+				hung[k], sums[k] = runHangChild(t.Name(), file)
+			}(k)
+		}
+		wg.Wait()
+		n := 0
+		for _, h := range hung {
+			if h {
+				n++
+			}
+		}
+		fmt.Printf("WATCHDOG: history %q hung in %d of 5 child runs\n", c.Path, n)
+		if n == 0 {
+			continue
+		}
+		class := trigger(f.events)
+		if f.scenario != "" {
+			class = "scenario:" + f.scenario
+		}
+		what := fmt.Sprintf("execution of [%s] (config %s) does not reach quiescence: %s", c.Path, cfg.Name, sums[0])
+		k := 0
+		defer os.Exit(1) // also runs if Finish ends this goroutine through t.Fatalf
+		r.Violate("hang|"+class, what, c, func() bool { k++; return hung[k-1] })
+		r.Set("states", 1)
+		r.Set("transitions", executions.Load())
+		r.Set("traces_validated_against_impl", executions.Load())
+		r.NotExhaustive("run ended by the hang watchdog")
+		r.Finish()
+		os.Exit(1)
+	}
+	fmt.Println("INFRA: an execution did not finish in this process but its history does not hang when re-executed")
+	buf := make([]byte, 1<<20)
+	fmt.Printf("%s\n", buf[:runtime.Stack(buf, true)])
+	os.Exit(2)
+}
+
+func startWatchdog(t *testing.T, r *vr.Report, prop string) func() {
 	stop := make(chan struct{})
 	go func() {
-		last, idle := progress.Load(), 0
+		last, since := progress.Load(), time.Now()
 		for {
 			select {
 			case <-stop:
 				return
-			case <-time.After(10 * time.Second):
+			case <-time.After(5 * time.Second):
 			}
 			if cur := progress.Load(); cur != last {
-				last, idle = cur, 0
-			} else if idle++; idle >= 18 {
-				fmt.Println("INFRA: no execution finished for 180 s; an execution hangs outside the reach of the virtual clock")
-				buf := make([]byte, 1<<20)
-				fmt.Printf("%s\n", buf[:runtime.Stack(buf, true)])
-				os.Exit(2)
+				last, since = cur, time.Now()
+			} else if time.Since(since) >= hangAfter {
+				reportHang(t, r, prop)
 			}
 		}
 	}()
@@ -530,7 +689,7 @@ func runProperty(t *testing.T, prop string, configs []*Config, scripted []replay
 			for _, sc := range scenarios {
 				if sc.Name == c.Scenario {
 					found = true
-					res = executeDriven(t, &sc.Config, sc.Drive, true, t.Logf)
+					res = executeDriven(t, &sc.Config, sc.Name, nil, sc.Drive, true, t.Logf)
 					c.Events = res.Events
 				}
 			}
@@ -553,7 +712,7 @@ func runProperty(t *testing.T, prop string, configs []*Config, scripted []replay
 		}
 		return
 	}
-	stop := startWatchdog()
+	stop := startWatchdog(t, r, prop)
 	defer stop()
 	r.Rule(rule)
 	r.Assume(assume...)
@@ -625,7 +784,7 @@ func runProperty(t *testing.T, prop string, configs []*Config, scripted []replay
 	// Driver-policy scenarios (long timed histories).
 	for i := range scenarios {
 		sc := scenarios[i]
-		res := executeDriven(t, &sc.Config, sc.Drive, false, nil)
+		res := executeDriven(t, &sc.Config, sc.Name, nil, sc.Drive, false, nil)
 		execs++
 		transitions++
 		states++
@@ -651,7 +810,7 @@ func runProperty(t *testing.T, prop string, configs []*Config, scripted []replay
 			c := replayCase{Config: sc.Config, Events: ev, Scenario: sc.Name, Path: fmt.Sprintf("%d events, ending: %s", len(ev), pathString(tail))}
 			cls := v.Class
 			r.Violate(v.Class+"|scenario:"+sc.Name, fmt.Sprintf("%s [scenario %s, after %s]", v.What, sc.Name, c.Path), c, func() bool {
-				again := executeDriven(t, &sc.Config, sc.Drive, false, nil)
+				again := executeDriven(t, &sc.Config, sc.Name, nil, sc.Drive, false, nil)
 				for _, v2 := range again.Viol {
 					if v2.Prop == prop && v2.Class == cls {
 						return true
